@@ -288,6 +288,24 @@ def runModel (c : Case) : String :=
   if lines.any Option.isNone then "panic"
   else String.intercalate " " (lines.filterMap id ++ [s!"calls {ncalls}"])
 
+/-- gsrv kind (`HealthServer::with_interceptor`): the wrapped service is the generated server; what is observed is its
+HANDLER: `Request::from_http` of the request the wrapped service was handed (`C12_handler_view`), the message being the
+body's frames in one piece; the generated server's own answer is not predicted (`gaccepted`). -/
+def runGsrvModel (c : Case) : String :=
+  let (st, ncalls, results) := runCalls (logged (scripted c.scripts)) recorder (0, []) 0 c.calls
+  let lines := (st.2.zip results).map (fun (l, res) =>
+    let isaw := s!"isaw {showHdrs l.1.1} {showExt l.1.2}"
+    let dec := match l.2 with
+      | .ok (md, x) => s!"iret {showHdrs md} {showExt x}"
+      | .error st => s!"irej {showStatus st}"
+    match res.1 with
+    | some r =>
+      let t := fromHttp r
+      some s!"{isaw} {dec} handler {showHdrs t.metadata} {showExt t.extensions} 1 {hex t.message.1.chunks.flatten} notr gaccepted"
+    | none => (showOutcome res.2).map (fun o => s!"{isaw} {dec} nohandler {o}"))
+  if lines.any Option.isNone then "panic"
+  else String.intercalate " " (lines.filterMap id ++ [s!"calls {ncalls}"])
+
 /-! ### parsing the observation, evaluating the oracle on it -/
 
 /-- observed `hdrs` (already lower-case): keep as given -/
@@ -337,6 +355,11 @@ structure ObsCall where
   hung : Bool := false
   /-- `false`: the observation of this call does not start with `isaw` — the interceptor was not run -/
   invoked : Bool := true
+  /-- gsrv kind: `saw` is the HANDLER's view (`tonic::Request` metadata / extensions / message); method, version and
+  URI are not observable there -/
+  handlerView : Bool := false
+  /-- gsrv kind: the call was accepted and the generated server answered (its answer is not part of the tie) -/
+  gaccepted : Bool := false
 
 def ocall : P ObsCall := do
   let ts ← get
@@ -359,7 +382,8 @@ def ocall : P ObsCall := do
       pure (Spec.Interceptor.Decision.reject { code := code, message := msg, details := det, metadata := md }, 0)
     else failure : P (Spec.Interceptor.Decision × Nat))
   let t ← next
-  let saw ← (if t == "noinner" then pure none
+  let handlerView := t == "handler" || t == "nohandler"
+  let saw ← (if t == "noinner" || t == "nohandler" then pure none
     else if t == "inner" then do
       let m ← pbytes
       let v ← pnat
@@ -368,13 +392,21 @@ def ocall : P ObsCall := do
       let x ← oext
       let b ← obody
       pure (some ({ method := m, version := v, uri := u, headers := h, ext := x.2, body := b }, x.1))
+    else if t == "handler" then do
+      let h ← ohdrs
+      let x ← oext
+      let b ← obody
+      pure (some ({ method := [], version := 0, uri := [], headers := h, ext := x.2, body := b }, x.1))
     else failure : P (Option (Request Body × Nat)))
   let t ← next
+  if t == "gaccepted" then
+    return { isawH := ih, isawX := ix, decision := dec, iretXTotal := tot, saw := saw, out := .error 0, invoked := invoked,
+             handlerView := handlerView, gaccepted := true }
   -- async kind: `pendings n` = the response future was `Pending` n times where the wrapped future's own count says
   -- otherwise (not a clause: the model never prints it, so it shows as a correspondence disagreement)
   let t ← (if t == "pendings" then do let _ ← pnat; next else pure t : P String)
   if t == "out-hang" || t == "out-busy-loop" then
-    return { isawH := ih, isawX := ix, decision := dec, iretXTotal := tot, saw := saw, out := .error 0, hung := true, invoked := invoked }
+    return { isawH := ih, isawX := ix, decision := dec, iretXTotal := tot, saw := saw, out := .error 0, hung := true, invoked := invoked, handlerView := handlerView }
   let out ← (if t == "outerr" then do
       let n ← pnat
       pure (.error n)
@@ -398,7 +430,7 @@ def ocall : P ObsCall := do
   let stalled ← (match ts with
     | t :: _ => if t == "body-hang" || t == "body-busy-loop" then do let _ ← next; pure true else pure false
     | [] => pure false : P Bool)
-  pure { isawH := ih, isawX := ix, decision := dec, iretXTotal := tot, saw := saw, out := out, hung := stalled, invoked := invoked }
+  pure { isawH := ih, isawX := ix, decision := dec, iretXTotal := tot, saw := saw, out := out, hung := stalled, invoked := invoked, handlerView := handlerView }
 
 def pobs (n : Nat) : P (List ObsCall × Nat) := do
   let cs ← rep ocall n
@@ -423,20 +455,25 @@ def callClauses (req : Request B) (script : Option Script) (o : ObsCall) : List 
         Spec.Interceptor.extEq o.isawX.2 req.ext && o.isawX.1 == req.ext.length)]
   match o.decision with
   | .accept md ext =>
+    -- the handler of a generated server is given the MESSAGE: the frames of the body in one piece
     let req' : Request Body := { method := req.method, version := req.version, uri := req.uri,
-                                 headers := req.headers, ext := req.ext, body := canonBody req.body.1 }
+                                 headers := req.headers, ext := req.ext,
+                                 body := if o.handlerView then { chunks := [req.body.1.chunks.flatten], trailers := none }
+                                         else canonBody req.body.1 }
     let touched : Bytes → Bool := fun k => match script with
       | none => false
       | some sc => sc.ops.any (Op.mentions k)
     let sawH : Hdrs := match o.saw with
       | some (r, _) => r.headers
       | none => []
-    let acc := Spec.Interceptor.acceptClauses req' md ext (o.saw.map (·.1))
+    -- (handler view: method / version / URI are not observable, those three clauses are fed the request's own)
+    let acc := Spec.Interceptor.acceptClauses req' md ext (o.saw.map (fun p =>
+      if o.handlerView then { p.1 with method := req.method, version := req.version, uri := req.uri } else p.1))
     let frame := [("untouched-headers-intact", Spec.Interceptor.untouchedOk touched req.headers sawH),
                   ("no-foreign-extensions", match o.saw with
                      | some (_, total) => total == o.iretXTotal
                      | none => false)]
-    let resp : List (String × Bool) := match req.body.2, o.out with
+    let resp : List (String × Bool) := if o.gaccepted then [] else match req.body.2, o.out with
       | .error n, .error m => [("inner-error-passed-through", n == m)]
       | .ok r, .ok oo =>
         Spec.Interceptor.passClauses
@@ -451,7 +488,7 @@ def callClauses (req : Request B) (script : Option Script) (o : ObsCall) : List 
     input ++ acc ++ frame ++ resp
   | .reject st =>
     let view : List (String × Bool) := match o.out with
-      | .error _ => [("reject-yields-response", false)]
+      | .error _ => [("reject-yields-response", false), ("inner-not-invoked", o.saw.isNone)]
       | .ok oo =>
         Spec.Interceptor.rejectClauses st o.saw.isSome
           { status := oo.resp.status, headers := oo.resp.headers, endStream := oo.eos, frames := frameCount oo.resp.body }
@@ -864,6 +901,10 @@ def handle (case obs : List String) : String × String :=
     (match parseCase case with
      | none => bad
      | some c => (runRoutedModel c, routedVerdict c obs))
+  | "gsrv" :: _ =>
+    (match parseCase case with
+     | none => bad
+     | some c => (runGsrvModel c, specVerdict c obs))
   | _ =>
     match parseCase case with
     | none => bad
